@@ -107,9 +107,10 @@ random engines, `cast_state`, the Kou generator; the `BlackScholes` factory, `_b
 `hook.py`, `autogreek.py`; the primary instruments other than `BrownianStock` / `VasicekRate`; `svi` / `clamp` / `ww` and the criterion
 plumbing; the less used features and the containers; the hedger's constructor / `price` / `compute_portfolio` and the derivative
 registries) and had to break any property through a change confined to that group, naming the property. 30 candidates, all re-confirmed
-(`seeded/Dnn-k/`). First run against the checks as they stood after §9.4c: 18 reported by the check of the property the agent named,
-**12 not** (D01-2, D01-3, D02-2, D02-3, D03-1, D03-2, D03-3, D04-3, D06-2, D08-1, D08-2, D10-3; at least D01-2, D02-2, D02-3 and D10-3 were
-reported by another property's check, the rest by none). After the work below all 30 are reported by their own check.
+(`seeded/Dnn-k/`). First run against the checks as they stood after §9.4c (re-measured with that version of the checker): 18 reported by the check of the
+property the agent named, 9 only by another property's check (D01-2, D01-3, D02-3, D03-2, D03-3, D04-3, D08-1, D08-2, D10-3), **3 missed
+by every check** (D02-2 the re-bound `max_log_moneyness`, D03-1 the detaching `MultiLayerPerceptron.forward`, D06-2 the default-dtype
+`parse_spot`). After the work below all 30 are reported by their own check.
 
 | seed | change (one line, from the agent's meta.json) | verdict | checks that report it | first rule |
 |---|---|---|---|---|
@@ -160,6 +161,49 @@ Observations from the agents that are not claimed: `BSLookbackOption.delta / gam
 or zero volatility on the pinned tree (D06 agent; C18 lists the lookback Greeks as not decided); a Python-float strike that float32 cannot
 represent costs 1e-7 in float64 automatic Greeks through `parse_spot` (D06 agent, same observation as in round 2); `register_underlier`
 called directly leaves an earlier instance attribute of the same name pointing at the old underlier.
+
+"""
+
+
+INTRO5 = """### 9.4e Fifth round: by cross-cutting theme
+
+Ten more fresh sub-agents, again with all twenty properties, each with one *theme* instead of a property or a file group: double
+precision with a float32 default dtype; argument forwarding between layers; shapes and axes (trailing dimensions, several instruments,
+N=1, T=1/2); edge values (zero cost / volatility / time, ties, p = k/N, on-grid start times); orientation and sign (put / call, up / down,
+crossing bounds); import-time wiring (tables, re-exports, aliases, decorators, doc helpers that set attributes); validation and guards
+(order of check and state change, merged conditions); random numbers (which draw feeds which factor, antithetic / Sobol plumbing);
+autograd plumbing (detach, grad-mode regions, zero_grad / step order, train / eval); time indexing. Anywhere in the package, three
+different properties and files per agent. 30 candidates, all re-confirmed (`seeded/Enn-k/`). Several re-discover defects of earlier rounds
+from another angle (the single-feature shortcut of `FeatureList.get`, `all(cost)`, `if dim`, the falsy initial state, the float32 time
+grid, `floor(start / dt)`, the Kou compensator) - those were reported at once. First run against the checks as they stood after §9.4d:
+FIRST5. After the work below all 30 are reported by the check of the property the agent named.
+
+| seed | change (one line, from the agent's meta.json) | verdict | checks that report it | first rule |
+|---|---|---|---|---|
+"""
+
+CHANGES5 = """
+What the fifth round changed:
+
+* **`functools.cached_property`** (E06-3) was an unknown decorator to the front end (the attribute read produced a bound method). It is now a
+  property whose first value is stored in the instance dict on access - which is exactly what the store-based purity rules look for; the
+  derived-series rule C17.R7 reads `spot` / `volatility` / `variance` through attribute access instead of calling the property body.
+* **Partial arguments** (E07-2): C07.R5p - for every Black-Scholes module created from a derivative, every state-taking method defined on
+  it and every single parameter given explicitly, the closed form receives the caller's tensor (or a re-parameterisation of it that does not
+  mention the derivative) for that parameter; a merged guard `if a is None or b is None:` overwrites an explicit `a`.
+* **The bracket of the implied volatility** (E01-3): C19.R8 - the ends `find_implied_volatility` hands to `bisect` have the dtype
+  provenance of the price (`torch.as_tensor(bound, device=...)` of a Python number has not).
+* **The grid under its own property** (E01-1): the float32 time grid had been an obligation of C03.R1p / C07.R7d; C13.R4p states it where it
+  belongs.
+* **The whole previous hedge** (E10-3): C03.R3b - `PrevHedge.get` returns the stored buffer itself (value-preserving wrappers aside), not an
+  index into it (`[..., [-1]]` is the last *instrument*).
+* **The module factory** (E06-2): C16.R3f - `BlackScholes(derivative)` for each of the four option types leaves nothing on the derivative or
+  the factory (a module kept in `derivative.__dict__` answers later requests with the strike and call flag of the first); the rule runs
+  before the in-place coverage scan, which would otherwise stop the check with an analysis error at the new store.
+
+Observations from the agents that are not claimed: `cast_state` sends a Python-float initial state through float32, so the first column of
+a float64 Vasicek simulation is float32-accurate (E04 agent; same observation as in rounds 2 and 4); `generate_brownian` driven by
+`RandnSobolBoxMuller` has a terminal standard deviation of 0.03 instead of 0.2 (E08 agent: this is known finding KF5).
 
 """
 
